@@ -81,6 +81,10 @@ def check_case(case) -> Outcome:
         case = F.rename_col({k: v for k, v in case.items() if k != "rename"}, *case["rename"])
         out.label("column-named:" + case_name(case))
     fr, fc = case["frame"], case["formula"]
+    if case.get("narrow"):
+        from .C02 import narrow_ints
+
+        fr = narrow_ints(fr, fc, case["narrow"], out)
     df = F.build(fr)
     s = F.formula_string(fc)
     opts = dict(ensure_full_rank=case["efr"], na_action=case["na_action"])
@@ -192,10 +196,16 @@ def _with_custom(fc, pick):
     return {"intercept": fc["intercept"], "terms": F.normalize_terms(fc["terms"] + extra)}
 
 
+def _int_product(fc, nar, ren):
+    from .C02 import _with_int_product
+
+    return fc if ren else _with_int_product(fc, nar)
+
+
 def gen(max_rows=10):
     variant = st.tuples(st.sampled_from(OUTPUTS), st.sampled_from(ENTRIES), st.sampled_from(MATS))
     return st.builds(
-        lambda fr, fc, efr, na, vs, two, ren, ch: {"frame": fr, "formula": fc, "efr": efr, "na_action": na, "variants": [list(v) for v in vs], "twosided": two, "rename": ren, "chunked": ch},
+        lambda fr, fc, efr, na, vs, two, ren, ch, nar: {"frame": fr, "formula": _int_product(fc, nar, ren), "efr": efr, "na_action": na, "variants": [list(v) for v in vs], "twosided": two, "rename": ren, "chunked": ch, "narrow": None if ren else nar},
         F.frame(max_rows=max_rows, nulls=True, index_kinds=("default", "default", "shuffled", "strings"), bool_col=True),
         st.builds(_with_custom, F.formulas(num_cols=F.NUM_COLS + ["t"]), st.one_of(st.none(), st.none(), st.none(), st.tuples(st.sampled_from(CUSTOM), st.integers(0, 2)))),
         st.booleans(),
@@ -204,6 +214,7 @@ def gen(max_rows=10):
         st.sampled_from([False, False, True]),
         st.one_of(st.none(), st.none(), st.none(), st.sampled_from([["y", "index"], ["G", "index"], ["y", "__index_level_0__"], ["y", "row_nr"]])),
         st.one_of(st.none(), st.tuples(st.integers(0, 30), st.sampled_from(OUTPUTS)).map(list)),
+        st.sampled_from([None, None, None, "int32", "int16", "uint8", "int64"]),
     )
 
 
